@@ -595,6 +595,10 @@ def gen_timeout_cluster(rng, cid):
             if rng.random() < 0.35:
                 # a client may send the forward marker itself: the timeout still applies at the node that serves it
                 hs.append((rng.choice(["x-piko-forward", "X-Piko-Forward"]), "true"))
+            if rng.random() < 0.3:
+                # an ordinary request that merely OFFERS a protocol upgrade that is not a websocket (curl --http2 over plain HTTP
+                # sends Upgrade: h2c): the timeout exemption is for websockets only
+                hs += [("Connection", "Upgrade, HTTP2-Settings"), ("Upgrade", rng.choice(["h2c", "TLS/1.0", "h2c, websocket-not"])), ("HTTP2-Settings", "AAMAAABkAAQCAAAAAAIAAAAA")]
             reqs.append(http_req(e, rng.choice(["GET", "POST"]), "/slow", "s.example.com", hs))
         elif r < 0.9:
             conn = [(rng.choice(["Connection", "connection"]), rng.choice(["Upgrade", "upgrade", "keep-alive, Upgrade"]))]
@@ -662,6 +666,7 @@ def marked_timeout_cluster(cid):
     truth_views(nodes)
     return {"id": cid, "timeout_ms": TIMEOUT_MS, "kind": "timeout", "nodes": nodes,
             "requests": [http_req(0, "GET", "/slow", "s.example.com", [("x-piko-forward", "true")]), http_req(1, "GET", "/slow", "s.example.com"),
+                         http_req(0, "GET", "/slow", "s.example.com", [("Connection", "Upgrade, HTTP2-Settings"), ("Upgrade", "h2c"), ("HTTP2-Settings", "AAMAAABkAAQCAAAAAAIAAAAA")]),
                          http_req(0, "POST", "/slow", "s.example.com", [("X-Piko-Forward", "true")])]}
 
 
